@@ -479,6 +479,23 @@ Refill(ev) ==
   /\ GD("RefillComplete", <<ev.got, ev.blocks, Len(ev.inuse)>>, ev.got = ev.blocks - Cardinality(SeqSet(ev.inuse)))
   /\ UNCHANGED <<live, heaps, dflt, backing, flux, arenas, osfail, cfg, aux>>
 
+\* Refinement-level snapshots of the delayed-free machinery (C02 / C08): for every observed page the blocks (as indices) on the
+\* free, local-free and thread-free lists, on the heap's delayed-free list, held by the program (live) and being released right now
+\* (flight).  Whatever the protocol is, a block must never be in two places, no list may contain a block twice or leave the page,
+\* and a block that is in no place must be in flight (or the owner is inside a call and may hold it in a local list).
+SnapPageOK(pg, ownerBusy) ==
+  LET idxs == 0..(pg.cap - 1)
+      Cnt(q, i) == Cardinality({k \in 1..Len(q) : q[k] = i})
+      places(i) == Cnt(pg.free, i) + Cnt(pg.lfree, i) + Cnt(pg.tfree, i) + Cnt(pg.live, i) + Cnt(pg.delayed, i)
+      inlists == SeqSet(pg.free) \cup SeqSet(pg.lfree) \cup SeqSet(pg.tfree) \cup SeqSet(pg.delayed)
+  IN /\ GD("ListsStayInPage", inlists \ idxs, inlists \subseteq idxs)
+     /\ GD("BlockConservation.dup", {i \in idxs : places(i) > 1}, \A i \in idxs : places(i) <= 1)
+     /\ GD("BlockConservation.lost", {i \in idxs : places(i) = 0}, \A i \in idxs : places(i) = 0 => (i \in SeqSet(pg.flight) \/ ownerBusy))
+Snap(ev) ==
+  /\ step' = step + 1
+  /\ \A k \in 1..Len(ev.pages) : SnapPageOK(ev.pages[k], ev.owner_busy)
+  /\ UNCHANGED <<live, heaps, dflt, backing, flux, arenas, osfail, cfg, aux>>
+
 \* ---------------------------------------------------------------- state invariants (checked by TLC in MC and on every trace state)
 LiveDisjoint == \A b1, b2 \in LiveIds : b1 # b2 => (DisjointR(live[b1].a, live[b1].e, live[b2].a, live[b2].e) /\ live[b1].a # live[b2].a)
 LiveWellFormed == \A b \in LiveIds : live[b].us >= live[b].req /\ live[b].wr <= live[b].us /\ LeA(live[b].a, live[b].e)
